@@ -106,6 +106,14 @@ def run(out, info, tier, seed):
                 mtyp = {'absent': 'absent', '0': 'time-based', '1': 'event-based'}[t]
                 if mcalls != obs['calls'] or mtyp != obs['type']:
                     mism.append(dict(d, model=dict(calls=mcalls, type=mtyp), implementation=obs))
+    # two different classes that share their module and qualified name (factory-made): each is judged by its OWN signatures
+    for v, cls in (('3.0', 'TWIN_NEW'), ('2.0', 'TWIN_OLD'), ('3.0', 'TWIN_OLD'), ('2.2', 'TWIN_NEW')):
+        n += 1
+        vv, ev, obs = one(v, None, cls, True)
+        want = spec(vv, ev, cls == 'TWIN_NEW', True)
+        if obs != want:
+            violations.append(dict(kind='start', version=v, explicit=None, signatures=cls, has_type=True, expected=want, observed=obs,
+                                   note='started after a different class of the same qualified name'))
     if model is not None:
         model.close()
         out.add_obligation('correspondence: extracted Adapters model = simmanager.start + adapter chain', not mism, f'{n} configurations')
@@ -121,8 +129,16 @@ def replay(path, out):
     r = json.load(open(path))
     if r.get('kind') != 'start':
         print(json.dumps(r, indent=1)[:2000]); print('re-run ./check C15'); return 1
+    if r.get('note'):
+        # the failure depends on what was started before in the same process: replay the sequence of the check
+        for v, cls in (('3.0', 'TWIN_NEW'), ('2.0', 'TWIN_OLD'), ('3.0', 'TWIN_OLD'), ('2.2', 'TWIN_NEW')):
+            vv, ev, obs = one(v, None, cls, True); want = spec(vv, ev, cls == 'TWIN_NEW', True)
+            print(cls, v, 'observed:', obs, 'expected:', want)
+            if obs != want:
+                print(f'VIOLATION property=C15 replay={path}'); return 1
+        return 0
     vv, ev, obs = one(r['version'], r['explicit'], r['signatures'], r['has_type'])
-    want = spec(vv, ev, r['signatures'] == 'New', r['has_type'])
+    want = spec(vv, ev, r['signatures'] in ('New', 'TWIN_NEW'), r['has_type'])
     print('observed:', obs); print('expected:', want)
     if obs != want: print(f'VIOLATION property=C15 replay={path}')
     return 1 if obs != want else 0
